@@ -9,5 +9,10 @@ TEXT = {
    technique="contract-based deductive verification (pyvc) of the table-driven functions against an independent tile model; finite table lemmas; bounded enumeration for generator completeness and the float sqrt",
    text="spinn5_chip_coord, spinn5_local_eth_coord and spinn5_fpga_link are proved, with the real 12x12 offset table and the real FPGA dictionary read from the module on every run, to agree with an independent description of the tiling (48-chip hexagon, Ethernet chips at (0,0),(4,8),(8,4) mod 12) for ALL integer chip coordinates, root offsets and machine sizes; uniqueness of the board of a chip and distinctness of the 48 FPGA link numbers are SMT lemmas; every coordinate yielded by spinn5_eth_coords is proved to be an Ethernet chip inside the machine (ghost assertion at the yield).  Completeness of spinn5_eth_coords and standard_system_dimensions (float sqrt) are bounded: exhaustive over all sizes <= 26 (60 thorough) x 144 roots and all board counts <= 30000 (300000).",
    note="Trusted: the tile model in specs/c19_spinn5.py, pyvc encoding, z3. Bounded parts are labelled bounded and not counted among the discharged obligations."),
+ "C15": dict(
+   design_ref="DESIGN.md 8/C15",
+   technique="contract-based deductive verification (pyvc) of encoders, decoders and of the real encoder composed with the real decoder",
+   text="SDPPacket.bytestring (for SDP and SCP packets), both from_bytestring decoders and the two compositions decode(encode(p)) are verified for ALL field values over their full widths, 0-3 leading arguments and payloads of ANY length: the bytes equal the layout written from the property statement, the decoders take min(n_args, words present, 3) arguments and leave the rest as payload for every input length >= 14 (shorter inputs raise struct.error and nothing else), and the round trip returns every field unchanged.",
+   note="Trusted: pyvc's struct model (cross-checked against CPython every run), sequences as arrays+length, z3. Packets with non-leading arguments (arg2 set, arg1 None) are outside the precondition, as in the property statement ('the present arguments')."),
 }
 NA = {}
